@@ -406,6 +406,8 @@ func genCase(r *c.Rng, mode string) *Case {
 		return genProv(r)
 	case "e2e":
 		return genE2E(r)
+	case "acme":
+		return genACME(r)
 	}
 	switch r.Intn(10) {
 	case 0:
@@ -427,6 +429,8 @@ func corner(mode string) []*Case {
 		return cornerProv()
 	case "e2e":
 		return cornerE2E()
+	case "acme":
+		return cornerACME()
 	}
 	var out []*Case
 	// D6: vb − va = 18446744374 s under max 24 h is accepted (user cert, default claims, backdate 1 m)
